@@ -371,6 +371,34 @@ def main():
     if not re.search(r"getLangAVT\(\)\s*;\s*langString\.clear\(\)\s*;\s*if\s*\(\s*0\s*!=\s*avt\s*\)\s*\{\s*avt->evaluate\(\s*langString", scb):
         raise Unsupported("sortChildren no longer clears the language scratch string for each xsl:sort before evaluating its lang AVT")
 
+    # --- 5. the context-node-list stack and its position cache (model: lean/XalanModel/C16/Position.lean)
+    xp = os.path.join(common.REPO, "src", "xalanc", "XPath", "XPathExecutionContextDefault.cpp")
+    xsrc = strip_comments(open(xp, encoding="utf-8", errors="replace").read())
+    for fn, op in (("pushContextNodeList", r"m_contextNodeListStack\.push_back\(\s*&theList\s*\)"),
+                   ("popContextNodeList", r"m_contextNodeListStack\.pop_back\(\s*\)")):
+        fb, _ = function_body(xsrc, r"XPathExecutionContextDefault::%s\(" % fn)
+        st = [nospace(x[1]) for x in parse_stmts(fb) if x[0] == "simple"]
+        if "m_cachedPosition.clear()" not in st or not re.search(op, fb):
+            raise Unsupported("XPathExecutionContextDefault::%s no longer clears m_cachedPosition (a position() after an inner "
+                              "loop / predicate could answer from the inner list)" % fn)
+    gb, _ = function_body(xsrc, r"XPathExecutionContextDefault::getContextNodeListPosition\(")
+    gst = [x for x in parse_stmts(gb) if not (x[0] == "simple" and x[1].startswith("assert"))]
+    okp = (len(gst) == 2 and gst[0][0] == "if" and nospace(gst[0][1]) == "m_cachedPosition.m_node==&contextNode"
+           and gst[0][3] is not None and nospace(gst[1][1]) == "returnm_cachedPosition.m_index")
+    if okp:
+        eb = [nospace(x[1]) for x in (gst[0][3][1] if gst[0][3][0] == "block" else [gst[0][3]]) if x[0] == "simple"]
+        okp = eb == ["constsize_typetheIndex=m_contextNodeListStack.back()->indexOf(&contextNode)",
+                     "m_cachedPosition.m_index=theIndex==NodeRefListBase::npos?0:theIndex+1",
+                     "m_cachedPosition.m_node=&contextNode"]
+        tb = gst[0][2][1] if gst[0][2][0] == "block" else [gst[0][2]]
+        okp = okp and all(x[0] == "simple" and x[1].startswith("assert") for x in tb)
+    if not okp:
+        raise Unsupported("XPathExecutionContextDefault::getContextNodeListPosition changed (cached node -> cached index; otherwise "
+                          "indexOf in the top list + 1, 0 when absent, and cache it)")
+    rb, _ = function_body(xsrc, r"XPathExecutionContextDefault::reset\(\s*\)")
+    if not re.search(r"m_cachedPosition\.clear\(\)\s*;", rb):
+        raise Unsupported("XPathExecutionContextDefault::reset no longer clears m_cachedPosition")
+
     lean = """/- GENERATED by translate/c16_nodesorter.py from src/xalanc/XSLT/NodeSorter.cpp — do not edit.
    sentinel literal: %s   compare() at line %d -/
 import XalanModel.C16.Dbl
